@@ -519,8 +519,13 @@ class DataFrame:
             withReplacement = None
 
         seed = int(seed) if seed is not None else None
-        args = [arg for arg in [withReplacement, fraction, seed] if arg is not None]
-        jdf = self._jdf.sample(*args)
+        # every argument goes to its own parameter: withReplacement may have
+        # been omitted, which leaves the fraction first among those given
+        jdf = self._jdf.sample(
+            withReplacement=bool(withReplacement),
+            fraction=fraction,
+            seed=seed
+        )
         return DataFrame(jdf, self.sql_ctx)
 
     def sampleBy(self, col, fractions, seed=None):
